@@ -44,6 +44,10 @@ func runC02(env *lib.Env, rep *lib.Report) {
 		cfgs = append(cfgs, histCfg{Name: "real/" + seed, Opt: worldOpt{}, Seed: seed, Alpha: a, Depth: d,
 			TickChoice: true, Reopen: true, Crash: true, FinalCrash: true})
 	}
+	// the session re-selects its database between statements (the store is closed and opened again, nothing is
+	// recovered): what the closing flush writes and what the new store reads must agree before the next crash
+	cfgs = append(cfgs, histCfg{Name: "real/t1x8/reselect", Opt: worldOpt{}, Seed: "t1x8",
+		Alpha: alphaOpt{Tables: []string{"t1"}, Inserts: []int{1, 9}, Updates: true, Deletes: true, FewDeletes: true}, Depth: d, TickChoice: true, Reselect: true, Crash: true, FinalCrash: true})
 	// reduced capacity: deeper trees, more splits per statement
 	reduced := []string{"interleaved"}
 	if env.Thorough() {
